@@ -292,6 +292,14 @@ Section External.
     | Ok l => ingest_all cfg st l
     | _ => (st, [])
     end.
+
+  (* a history of messages through one worker *)
+  Fixpoint process_all (cfg : config) (st : table) (ws : list wrapper) : table * list effect :=
+    match ws with
+    | [] => (st, [])
+    | w :: rest => let '(st1, e1) := process cfg st w in
+                   let '(st2, e2) := process_all cfg st1 rest in (st2, e1 ++ e2)
+    end.
 End External.
 
 (* ---------------------------------------------------------------- the property's vocabulary *)
